@@ -2,11 +2,20 @@
    Only the property theorems (closed by `exact`), the assumption audit and non-vacuity examples.
    Definitions: Model/Tape.v + Model/AD.v (transcription of differentiation.rs,
    record_operations.rs, functions.rs: `run_prog`, `try_derivatives`, `at_`), Spec/FormalD.v (the
-   short specification: `value`, `grad`, `depends_on`, `depends_any`), Proofs/C04P.v (any
-   commutative ring), Proofs/C04R.v (Coq's real numbers: `Rops`, `dom`, `set_var`). *)
+   short specification: `value`, `grad`, `depends_on`, `depends_any`), Spec/FormalAdj.v (`adjoint`:
+   the formal derivative with respect to an intermediate result), Proofs/C04P.v (any commutative
+   ring), Proofs/C04R.v (Coq's real numbers: `Rops`, `dom`, `set_var`).
+   Session 3 added (clause audit: notes/C04_C05.md): Proofs/C04X.v -- the last sentence of the
+   property for all programs (vector length / every record has a slot, later variables get zero,
+   constant instructions are inert, no variable => no tape, a constant operand is its number in every
+   operator form); Proofs/C04A.v -- the COMPLETE derivative vector is the vector of adjoints;
+   Proofs/C04RI.v -- the analytic theorems over `Rops_i`, whose power function is x^n for natural
+   exponents at ANY base (negative bases of record ^ number inside the domain `dom_i`).
+   By-value / by-reference operand forms are one model function per operator kind; they are
+   separated by the correspondence only (harness/src/c04/prog.rs). *)
 From Coq Require Import List Arith ZArith Reals Bool.
-From EasyML Require Import Base.Sx Model.Num Model.Tape Model.AD Spec.FormalD
-  Proofs.TapeP Proofs.C04P Proofs.C04R.
+From EasyML Require Import Base.Sx Model.Num Model.Tape Model.AD Spec.FormalD Spec.FormalAdj
+  Proofs.TapeP Proofs.C04P Proofs.C04R Proofs.C04X Proofs.C04A Proofs.C04RI.
 Import ListNotations.
 
 (* the number carried by the record of every instruction is the same computation on plain
@@ -72,6 +81,101 @@ Theorem C04_reverse_mode_is_true_derivative : forall prog i x0 out d,
                    (at_ Rops d (getr Rops (fst (run_prog Rops prog)) i)).
 Proof. exact reverse_mode_is_true_derivative. Qed.
 
+(* ---- extension round (session 3): the last sentence of the property, and the shape of the
+   Derivatives object, for ALL programs (Proofs/C04X.v) ---- *)
+
+(* Derivatives has one entry per entry of the WHOLE tape: every record of the program that is not
+   a constant -- created before OR after the output -- has a slot, so Derivatives::at / Index never
+   leave the vector *)
+Theorem C04_derivatives_cover_every_record : forall R (ops : numops R), is_ring ops ->
+  forall (prog : list (instr R)) out d,
+  try_derivatives ops (run_prog ops prog) out = Some d ->
+  length d = length (snd (run_prog ops prog)) /\
+  forall k, history (getr ops (fst (run_prog ops prog)) k) = true ->
+            (index (getr ops (fst (run_prog ops prog)) k) < length d)%nat.
+Proof. exact @derivatives_cover_every_record. Qed.
+
+(* an input created AFTER the output gets exactly zero *)
+Theorem C04_later_variable_zero : forall R (ops : numops R), is_ring ops ->
+  forall (prog : list (instr R)) out v x d,
+  nth_error prog v = Some (IVar x) -> (out < v)%nat ->
+  try_derivatives ops (run_prog ops prog) out = Some d ->
+  at_ ops d (getr ops (fst (run_prog ops prog)) v) = nzero ops.
+Proof. exact @later_variable_zero. Qed.
+
+(* constants do not perturb: an instruction whose result is a constant leaves the tape and the
+   derivative vector of every earlier output exactly as they were (any program, any instruction,
+   Sum and the caller-supplied function forms included) *)
+Theorem C04_constant_instruction_inert : forall R (ops : numops R) (prog : list (instr R)) ins,
+  history (getr ops (fst (run_prog ops (prog ++ [ins]))) (length prog)) = false ->
+  snd (run_prog ops (prog ++ [ins])) = snd (run_prog ops prog) /\
+  forall out, (out < length prog)%nat ->
+    try_derivatives ops (run_prog ops (prog ++ [ins])) out = try_derivatives ops (run_prog ops prog) out.
+Proof. exact @constant_instruction_inert. Qed.
+
+(* constants do not receive: a program that creates no variable never appends to the tape and
+   every one of its results is a constant *)
+Theorem C04_no_variable_no_tape : forall R (ops : numops R) (prog : list (instr R)),
+  var_nodes prog = [] ->
+  snd (run_prog ops prog) = [] /\ forall out, try_derivatives ops (run_prog ops prog) out = None.
+Proof. exact @no_variable_no_tape. Qed.
+
+(* a Record::constant operand IS the plain number it carries, at any point of any program and in
+   every operator form: record (op) constant = record (op) number; constant (op) record =
+   sub_swapped / div_swapped / number.pow(record); constant + record, constant * record = the
+   commuted record (op) number; Record::binary with a constant on either side = Record::unary of
+   the partial application (same record, same tape) *)
+Theorem C04_constant_operand_every_form : forall R (ops : numops R), is_ring ops ->
+  forall (prog : list (instr R)) b c, nth_error prog b = Some (IConst c) ->
+  let nodes := fst (run_prog ops prog) in
+  forall t a,
+  (forall o, exec_op ops nodes t (IBin o a b) = exec_op ops nodes t (IBinC o a c)) /\
+  (forall o, exec_op ops nodes t (IBin (cop_bop o) b a) = exec_op ops nodes t (ICBin o c a)) /\
+  exec_op ops nodes t (IBin BAdd b a) = exec_op ops nodes t (IBinC BAdd a c) /\
+  exec_op ops nodes t (IBin BMul b a) = exec_op ops nodes t (IBinC BMul a c) /\
+  (forall f dx dy, exec_op ops nodes t (IUser2 f dx dy a b)
+                   = exec_op ops nodes t (IUser1 (fun x => f x c) (fun x => dx x c) a)) /\
+  (forall f dx dy, exec_op ops nodes t (IUser2 f dx dy b a)
+                   = exec_op ops nodes t (IUser1 (fun y => f c y) (fun y => dy c y) a)).
+Proof. exact @constant_operand_every_form. Qed.
+
+(* the COMPLETE derivative vector (Proofs/C04A.v): for every instruction k whose result is not a
+   constant -- input variable or intermediate value, created before or after the output -- the
+   entry of Derivatives at k's tape position is the formal partial derivative of the output with
+   respect to the RESULT of k (Spec/FormalAdj.v: unit velocity injected at instruction k, every
+   other instruction as written); for a variable that is the gradient entry of C04_sweep_is_gradient *)
+Theorem C04_complete_vector_is_adjoint : forall R (ops : numops R), is_ring ops ->
+  forall (prog : list (instr R)) out k d,
+  try_derivatives ops (run_prog ops prog) out = Some d ->
+  history (getr ops (fst (run_prog ops prog)) k) = true ->
+  at_ ops d (getr ops (fst (run_prog ops prog)) k) = adjoint ops prog out k.
+Proof. exact @try_derivatives_is_adjoint. Qed.
+
+Theorem C04_adjoint_of_variable_is_gradient : forall R (ops : numops R), is_ring ops ->
+  forall (prog : list (instr R)) out k x, nth_error prog k = Some (IVar x) ->
+  adjoint ops prog out k = grad ops prog out k.
+Proof. exact @adjoint_of_variable. Qed.
+
+(* ---- integer powers at any base (Proofs/C04RI.v).  `Rops_i` is Coq's real numbers with the power
+   function rpow: x^n for a natural-number exponent n at ANY base (what f64 powf computes for
+   (-2)^3), Rpower x y = exp (y ln x) otherwise; `dom_i` is `dom` except that record ^ number is also
+   inside the domain at any base when the number is a natural number ---- *)
+Theorem C04_rpow_is_the_power_function :
+  (forall x n, rpow x (INR n) = x ^ n)%R /\ (forall x y, 0 < x -> rpow x y = Rpower x y)%R.
+Proof. split; [exact rpow_nat|exact rpow_pos]. Qed.
+
+Theorem C04_formal_is_true_derivative_ipow : forall prog i x0 out,
+  nth_error prog i = Some (IVar x0) -> dom_i prog ->
+  derivable_pt_lim (fun t => nth out (value Rops_i (set_var prog i t)) 0%R) x0 (grad Rops_i prog out i).
+Proof. exact formal_is_true_derivative_i. Qed.
+
+Theorem C04_reverse_mode_is_true_derivative_ipow : forall prog i x0 out d,
+  nth_error prog i = Some (IVar x0) -> dom_i prog ->
+  try_derivatives Rops_i (run_prog Rops_i prog) out = Some d ->
+  derivable_pt_lim (fun t => number (getr Rops_i (fst (run_prog Rops_i (set_var prog i t))) out)) x0
+                   (at_ Rops_i d (getr Rops_i (fst (run_prog Rops_i prog)) i)).
+Proof. exact reverse_mode_is_true_derivative_i. Qed.
+
 (* non-vacuity, ring level: the integers are an instance; for x = 3, y = 5 the program
    u = x*y; w = u + x; c = 7; z = c*w (constant record on the left, reuse of x) reports
    dz/dx = 7*(y+1) = 42, dz/dy = 7*x = 21, and the constant c has no derivatives *)
@@ -84,6 +188,35 @@ Example C04_nonvacuous :
     grad Zops prog 5 0 = 42%Z /\ grad Zops prog 5 1 = 21%Z /\
     number (getr Zops (fst st) 5) = 126%Z /\ try_derivatives Zops st 4 = None.
 Proof. split; [exact Zops_ring|]. eexists. vm_compute. repeat split; reflexivity. Qed.
+
+(* non-vacuity of the adjoint statement on the same program: u = x*y (instruction 2) and
+   w = u + x (instruction 3) are intermediates with dz/du = dz/dw = 7 *)
+Example C04_nonvacuous_adjoint :
+  let prog := [IVar 3%Z; IVar 5%Z; IBin BMul 0 1; IBin BAdd 2 0; IConst 7%Z; IBin BMul 4 3] in
+  let st := run_prog Zops prog in
+  exists d, try_derivatives Zops st 5 = Some d /\
+    history (getr Zops (fst st) 2) = true /\
+    at_ Zops d (getr Zops (fst st) 2) = 7%Z /\ adjoint Zops prog 5 2 = 7%Z /\
+    at_ Zops d (getr Zops (fst st) 3) = 7%Z /\ adjoint Zops prog 5 3 = 7%Z /\
+    adjoint Zops prog 5 0 = 42%Z.
+Proof. eexists. vm_compute. repeat split; reflexivity. Qed.
+
+(* non-vacuity of the integer-power statements: x^3 at x = -2 (a NEGATIVE base) is inside dom_i, its
+   value is -8 and the formal derivative 3 x^2 = 12 *)
+Example C04_nonvacuous_ipow :
+  let prog := [IVar (-2)%R; IBinC BPow 0 (INR 3)] in
+  dom_i prog /\ nth_error prog 0 = Some (IVar (-2)%R) /\
+  nth 1 (value Rops_i prog) 0%R = (-8)%R /\ grad Rops_i prog 1 0 = 12%R.
+Proof.
+  cbv zeta. split; [|split; [reflexivity|]].
+  - unfold dom_i. cbn [dom_from_i dom_instr_i dom_instr]. split; [exact I|]. split; [|exact I].
+    right. exists 3%nat. reflexivity.
+  - unfold grad, tangent, value, drun.
+    cbn [fold_left dstep fst snd app nth length value_instr tangent_instr bop_f bop_dx Nat.eqb
+         npow nmul nsub nadd none_ nzero Rops_i].
+    replace (INR 3 - 1)%R with (INR 2) by (cbn [INR]; ring).
+    rewrite !rpow_nat. cbn [INR pow]. split; ring.
+Qed.
 
 (* non-vacuity, real level: w = ln(y) * (x / y) + x^y, then w.unary(sq, dsq) and
    binary(f, fx, fy) with the caller-supplied functions of the correspondence (entries 0 of
@@ -111,3 +244,13 @@ Print Assumptions C04_independent_zero.
 Print Assumptions C04_const_iff.
 Print Assumptions C04_formal_is_true_derivative.
 Print Assumptions C04_reverse_mode_is_true_derivative.
+Print Assumptions C04_derivatives_cover_every_record.
+Print Assumptions C04_later_variable_zero.
+Print Assumptions C04_constant_instruction_inert.
+Print Assumptions C04_no_variable_no_tape.
+Print Assumptions C04_constant_operand_every_form.
+Print Assumptions C04_complete_vector_is_adjoint.
+Print Assumptions C04_adjoint_of_variable_is_gradient.
+Print Assumptions C04_rpow_is_the_power_function.
+Print Assumptions C04_formal_is_true_derivative_ipow.
+Print Assumptions C04_reverse_mode_is_true_derivative_ipow.
